@@ -78,7 +78,7 @@ Step ==
               \* sends are recorded before the event of the step that caused them: the request pool at the time of the send
               \* (s.pool) already holds the request that has just arrived
               /\ Report(l, A!JudgedSendFails(TRv, s) \cup A!BeyondSendFails(TMv, TRv, arrived \cup s.pool, (s.pool \cap HeardAt(l)) \ doneF, s)
-                           \cup NameIf(A!Withdrawn(TRv, s), "beyond:Withdrawn")
+                           \cup NameIf(A!Withdrawn(TRv, s), "beyond:Withdrawn") \cup NameIf(A!FallbackPooled(s), "beyond:FallbackPooled")
                            \* one service instance does not hand over a main transaction again that the node has taken from it
                            \cup NameIf(~(s.kind = "main" /\ <<e.gen, s.main>> \in doneM), "beyond:MainOnce"), [ev |-> e])
          [] e.event = "submit" ->
